@@ -653,8 +653,10 @@ def native_args(H):
     tg = getattr(H, 'cur_targets', None)
     targets = 'every' if tg is None else ','.join(str(t) for t in tg)
     jj = '{j}' if H.shape.par == 'sym' else str(H.shape.par)
+    mk = [e[1] for e in mon.events if e[0] == 'mkdir-failed']
+    tail = (' mkdirfail=%d' % mk[0]) if mk else ''
     return 'sched %s %s %s %s %s %s %s%s' % (graph, targets, jj, k, depth, ''.join(dirty), ','.join(script) or '-',
-                                             ' adopt' if H.adopt else '')
+                                             (' adopt' if H.adopt else ' run') + tail)
 
 
 def fill_cmd(template, model):
@@ -682,6 +684,8 @@ def parse_native(ans):
             evs.append(('record', int(p[1])))
         elif p[0] == 'update':
             evs.append(('update', tuple(int(x) for x in p[1].split(',')), int(p[2])))
+        elif p[0] == 'mkdir-failed':
+            evs.append(('mkdir-failed', int(p[1])))
     return {'head': m.group(1), 'wanted': m.group(2).split(','), 'states': m.group(3).split(','),
             'tasks_run': int(m.group(4)), 'events': evs}
 
@@ -792,6 +796,10 @@ def trace_violations(H, nat, model):
     head = nat['head']
     anyfail = any(failed) or interrupted
     unknown_pool = [b for b in dirty_q if H.pool[b] == b'q']
+    if any(e[0] == 'mkdir-failed' for e in nat['events']):
+        if head == 'result=Ok(true)':
+            out.add('C05:success-despite-mkdir-failure')
+        return out
     if head.startswith('result=Err'):
         if 'unknown_pool' in head:
             if not unknown_pool:
